@@ -1269,8 +1269,6 @@ class Interp:
             if isinstance(a, int) and a == 2 and is_sym(b):
                 return 1 << b
             raise Unsupported("symbolic power")
-        if op is ast.Div and (is_sym(a) or is_sym(b)):
-            raise Unsupported("true division of symbolic ints (float)")
         r = self.native(BINOPS[op], a, b)
         if r is NotImplemented:
             self.py_raise(TypeError, "unsupported operand")
